@@ -1023,9 +1023,8 @@ def make_rotation_case(rng, k):
             case['copies'] = {'kinds': [['copy', 'deepcopy', 'pickle'][int(i)] for i in rng.permutation(3)[:int(rng.integers(1, 4))]],
                               'warm': [['pga', 'pgv', 'velocity', 'displacement', 'fa_spectrum', 's_a', 'none'][int(i)]
                                        for i in rng.integers(0, 7, size=2)],
-                              'order': ['copy-first', 'original-first'][int(rng.integers(2))],
-                              'const': float(rng.normal()) * float(np.max(np.abs(ns)) or 1.0),
-                              'new': rng.normal(size=n) * float(np.max(np.abs(ns)) or 1.0),
+                              'order': ['copy-first', 'original-first'][int(rng.integers(2))], 'read_first': bool(rng.random() < 0.6),
+                              'const': float(rng.normal()), 'new': rng.normal(size=n),      # in units of the component's largest magnitude
                               'theta': float(np.round(rng.uniform(-360, 360), 2))}
         if rng.random() < 0.12:
             case['mismatch'] = {'extra': int(rng.choice([1, 2, 7, -1])), 'dt_factor': float(rng.choice([1.0, 2.0, 1.0000001])),
@@ -1250,29 +1249,41 @@ def copied_components(eqsig, ctx, case, cp, ns_a, we_a):
             getattr(ns_a, attr)
     n = ns_a.npts
     for kind in cp['kinds']:
+        amp = float(np.max(np.abs(np.asarray(ns_a.values, dtype=float)))) or 1.0      # the component's CURRENT scale (and dtype)
+        const = float(cp['const']) * amp
         orig_before = np.array(ns_a.values, copy=True)
         twin = pickle.loads(pickle.dumps(ns_a)) if kind == 'pickle' else (copy.deepcopy(ns_a) if kind == 'deepcopy' else copy.copy(ns_a))
         ctx.check(type(twin) is type(ns_a) and twin.dt == ns_a.dt and twin.npts == n and unchanged(twin.values, orig_before),
                   'rotation.copied-component==original', lambda: dict(case, failing={'relation': '%s of a warm component' % kind}),
                   'a %s of a warm AccSignal differs from it in type, dt, npts or values' % kind)
+        if cp.get('read_first', True):      # READ the copy before anything changes it: a copy that lost derived arrays but kept
+            bad0 = []                        # their validity flags fails here
+            with attach.paused():
+                for attr in ['pga', 'pgv'] + [a_ for a_ in cp['warm'] if a_ != 'none']:
+                    x, y = np.asarray(getattr(twin, attr)), np.asarray(getattr(ns_a, attr))
+                    if x.shape != y.shape or not np.all(np.abs(x - y) <= 1e-9 * (np.abs(x) + np.abs(y))):
+                        bad0.append(attr)
+            ctx.check(not bad0, 'rotation.copied-component==original',
+                      lambda: dict(case, failing={'relation': 'observables of a fresh %s == those of the original' % kind, 'bad': bad0}),
+                      '%s read on a fresh %s of a warm AccSignal differ from the original' % (bad0, kind))
         eqsig.combine_at_angle(twin, we_a, cp['theta'])                   # monitored: judged from the copy's values
-        new = np.resize(np.asarray(cp['new'], dtype=float), n)
+        new = np.resize(np.asarray(cp['new'], dtype=float), n) * amp
 
         def change_copy():
             if kind == 'copy':       # a shallow copy shares the buffer by definition: only rebinding operations
                 twin.reset_values(new.copy())
             else:
-                twin.add_constant(cp['const'])
+                twin.add_constant(const)
                 if twin.values.flags.writeable:
                     twin.values[0] += 1.0           # in-place edit of the copy's own buffer
                     twin.reset_values(twin.values)
 
         def change_orig():
-            ns_a.add_constant(-cp['const'])
+            ns_a.add_constant(-const)
         for f in ((change_copy, change_orig) if cp['order'] == 'copy-first' else (change_orig, change_copy)):
             f()
         separate = isinstance(twin.values, np.ndarray) and not np.shares_memory(twin.values, ns_a.values)
-        ctx.check(separate and unchanged(ns_a.values, orig_before - cp['const']), 'rotation.copy-leaves-original-alone',
+        ctx.check(separate and unchanged(ns_a.values, orig_before - const), 'rotation.copy-leaves-original-alone',
                   lambda: dict(case, failing={'relation': 'changing a %s leaves the original alone' % kind, 'order': cp['order']}),
                   'after changing a %s of a component (%s) the original is not its own values minus the constant added to it'
                   % (kind, cp['order']))
